@@ -167,6 +167,14 @@ pub fn check(case: &Case, st: &mut Stats) -> Result<(), Violation> {
         message: msg,
         case: case.json_with(p, w, h),
     };
+    if let Some(k) = prior_perm_kind(px.iter().flat_map(|p| p.iter().map(|c| c.to_bits())), px.len()) {
+        // the previous call on this thread converts a permutation of the same pixels (result ignored)
+        let q = permuted(&px, k, case.w);
+        let fwd = case.forward;
+        let (w, h) = (case.w, case.h);
+        let _ = catch(move || if fwd { LinearRgb::new(q, w, h).map(|l| LinearRgb::from(Hsl::from(l))).map(|_| ()) } else { Hsl::new(q, w, h).map(LinearRgb::from).map(|_| ()) });
+        st.class("preceded_by_a_permutation_of_the_same_image", 1);
+    }
     if !case.forward {
         let res = catch(|| Hsl::new(px.clone(), case.w, case.h).map(LinearRgb::from));
         let rgb = match res {
